@@ -53,6 +53,16 @@ def canon_angle(vals, r):
     return canon_msg(_A(x))
 
 @pred
+def canon_geonum_guard(vals, r, rs):
+    """canon_geonum, applied only when the product of the listed operands' magnitudes stays inside the
+    C01 domain [1e-100, 1e100] (or is zero): intermediate products outside it are out of scope"""
+    p = mp.mpf(1)
+    for x in rs:
+        p *= v(vals[x][1])
+    if p != 0 and not (mp.mpf('1e-100') <= p <= mp.mpf('1e100')): return None
+    return canon_geonum(vals, r)
+
+@pred
 def canon_geonum(vals, r):
     x = vals[r]
     if _isP(x): return 'unexpected panic'
@@ -599,4 +609,433 @@ def index_ref(vals, rc, i, rres):
         if vals[rres] != ('G',) + tuple(c[i]): return 'index %d returned %r' % (i, vals[rres])
     elif not _isP(vals[rres]):
         return 'out-of-bounds index %d did not panic' % i
+    return None
+
+# ------------------------------------------------------------------ numeric helpers for Geonum
+def _sv(G):
+    """signed scalar value of a geonum encoded at blade 0/2 (or 1/3): magnitude with the sign of the half turn"""
+    m = v(G[1])
+    return -m if (G[3] % 4) >= 2 else m
+
+def _scale(*gs):
+    return sum((abs(v(g[1])) for g in gs), mp.mpf(0))
+
+def _ok_geo(G):
+    if _isP(G): return 'unexpected panic'
+    return canon_msg(_A(G)) or mag_msg(G)
+
+def _blade_term(n):
+    return 4 * N.ulp(mp.mpf(max(n, 1)) * HALF)
+
+def _cart_tol(scale, r_true, blades):
+    t = TOL * max(scale, mp.mpf(1)) + (64 * EPS + _blade_term(blades)) * scale     # 1e-10 absolute (angular snap: 1e-10 * scale)
+    canc = min(4 * SQEPS * scale, 8 * EPS * scale * scale / max(r_true, mp.mpf('1e-320')))
+    return t + canc + mp.mpf(5e-324) * 8
+
+# ------------------------------------------------------------------ C06 / C14 addition
+@pred
+def cart_sum(vals, ra, rb, rs, sign):
+    a, b, s = vals[ra], vals[rb], vals[rs]
+    m = _ok_geo(s)
+    if m: return m
+    ax, ay = cart(a); bx, by = cart(b)
+    wx, wy = ax + sign * bx, ay + sign * by
+    sx, sy = cart(s)
+    scale = _scale(a, b)
+    r = mp.sqrt(wx * wx + wy * wy)
+    tol = _cart_tol(scale, r, a[3] + b[3] + 2)
+    err = mp.sqrt((sx - wx) ** 2 + (sy - wy) ** 2)
+    if err > tol:
+        return 'cartesian value of the %s is off by %s (tolerance %s): got (%s, %s), expected (%s, %s)' % (
+            'sum' if sign > 0 else 'difference', mp.nstr(err, 5), mp.nstr(tol, 5), mp.nstr(sx, 12), mp.nstr(sy, 12), mp.nstr(wx, 12), mp.nstr(wy, 12))
+    return None
+
+@pred
+def mag_zero(vals, r):
+    x = vals[r]
+    if _isP(x): return 'unexpected panic'
+    if v(x[1]) != 0: return 'expected zero magnitude, got %s' % mp.nstr(v(x[1]), 17)
+    return None
+
+@pred
+def cart_close(vals, r1, r2, blades):
+    a, b = vals[r1], vals[r2]
+    m = _ok_geo(a) or _ok_geo(b)
+    if m: return m
+    ax, ay = cart(a); bx, by = cart(b)
+    scale = max(_scale(a), _scale(b))
+    err = mp.sqrt((ax - bx) ** 2 + (ay - by) ** 2)
+    if err > (2 * TOL + 64 * EPS + 2 * _blade_term(blades)) * scale + 8 * SQEPS * scale * (1 if scale < mp.mpf('1e-7') else 0):
+        return 'vectors differ by %s: (%s,%s) vs (%s,%s)' % (mp.nstr(err, 5), mp.nstr(ax, 12), mp.nstr(ay, 12), mp.nstr(bx, 12), mp.nstr(by, 12))
+    return None
+
+@pred
+def same_blade_rem(vals, r1, r2):
+    a, b = _A(vals[r1]), _A(vals[r2])
+    if a[2] != b[2]: return 'blade history differs: %d vs %d' % (a[2], b[2])
+    if abs(v(a[1]) - v(b[1])) > 2 * TOL: return 'remainders differ: %s vs %s' % (mp.nstr(v(a[1]), 17), mp.nstr(v(b[1]), 17))
+    return None
+
+@pred
+def add_same_angle(vals, ra, rb, rs):
+    a, b, s = vals[ra], vals[rb], vals[rs]
+    if _isP(s): return 'unexpected panic'
+    if (s[2], s[3]) != (a[2], a[3]): return 'identical angles: sum angle %r is not the common angle %r' % (_A(s), _A(a))
+    if s[1] != fb.bits(fb.fl(a[1]) + fb.fl(b[1])): return 'identical angles: magnitude %r, expected %r' % (fb.fl(s[1]), fb.fl(a[1]) + fb.fl(b[1]))
+    return None
+
+@pred
+def add_opposite(vals, ra, rb, rs):
+    a, b, s = vals[ra], vals[rb], vals[rs]
+    if _isP(s): return 'unexpected panic'
+    ma, mb = fb.fl(a[1]), fb.fl(b[1])
+    d = ma - mb
+    if abs(d) < 1e-10:
+        if v(s[1]) != 0 or v(s[2]) != 0 or s[3] != a[3] + b[3]:
+            return 'cancelling opposite summands: got %r, expected zero magnitude, remainder 0, blade %d' % (s, a[3] + b[3])
+    elif d > 0:
+        if (s[2], s[3]) != (a[2], a[3]) or s[1] != fb.bits(d): return 'opposite summands, first larger: got %r, expected magnitude %r at the first angle %r' % (s, d, _A(a))
+    else:
+        if (s[2], s[3]) != (b[2], b[3]) or s[1] != fb.bits(-d): return 'opposite summands, second larger: got %r, expected magnitude %r at the second angle %r' % (s, -d, _A(b))
+    return None
+
+@pred
+def add_general_blades(vals, ra, rb, rs):
+    a, b, s = vals[ra], vals[rb], vals[rs]
+    m = _ok_geo(s)
+    if m: return m
+    lo = a[3] + b[3]
+    if not (lo <= s[3] <= lo + 4): return 'sum blade %d outside [%d, %d]' % (s[3], lo, lo + 4)
+    if s[3] == lo + 4 and v(s[2]) != 0: return 'sum blade is a full turn above the operand blades with non-zero remainder'
+    return None
+
+@pred
+def grade_from_direction(vals, ra, rb, rs):
+    """the sum's grade (and remainder) is fixed by the Cartesian direction of the vector sum"""
+    a, b, s = vals[ra], vals[rb], vals[rs]
+    ax, ay = cart(a); bx, by = cart(b)
+    wx, wy = ax + bx, ay + by
+    r = mp.sqrt(wx * wx + wy * wy)
+    scale = _scale(a, b)
+    if r < mp.mpf('1e-6') * scale or scale == 0: return None
+    want = mp.atan2(wy, wx)
+    if want < 0: want += 2 * PI
+    tol = TOL + 64 * EPS * scale / r + _blade_term(a[3] + b[3] + 2) + 4 * SQEPS * (1 if r < mp.mpf('1e-3') * scale else 0)
+    if angdiff(direction(_A(s)), want) > tol:
+        return 'direction of the sum %s, expected %s' % (mp.nstr(direction(_A(s)), 15), mp.nstr(want, 15))
+    return None
+
+# ------------------------------------------------------------------ C09 dot
+@pred
+def dot_value(vals, ra, rb, rd):
+    a, b, d = vals[ra], vals[rb], vals[rd]
+    m = _ok_geo(d)
+    if m: return m
+    if v(d[2]) != 0 or d[3] not in (0, 2): return 'dot product not encoded at angle 0 or pi: %r' % (_A(d),)
+    ab = v(a[1]) * v(b[1])
+    want = ab * mp.cos(direction(_A(b)) - direction(_A(a)))
+    got = _sv(d)
+    tol = ab * (TOL + 16 * EPS) + mp.mpf(5e-324) * 4
+    if abs(got - want) > tol: return 'dot product %s, expected %s' % (mp.nstr(got, 17), mp.nstr(want, 17))
+    if d[3] == 2 and v(d[1]) == 0: return 'zero dot product encoded at pi'
+    if d[1] != 0 and fb.fl(d[1]) > fb.fl(_fmul(a[1], b[1])): return 'dot magnitude exceeds |a||b|'
+    return None
+
+@pred
+def scalar_close(vals, r1, r2, ra, rb, k):
+    """two signed scalars (encoded at 0/pi or pi/2 / 3pi/2) agree within k * |a||b| * tolerance"""
+    x, y = vals[r1], vals[r2]
+    ab = v(vals[ra][1]) * v(vals[rb][1])
+    if abs(_sv(x) - _sv(y)) > k * ab * (TOL + 16 * EPS) + mp.mpf(5e-324) * 8:
+        return 'values differ: %s vs %s' % (mp.nstr(_sv(x), 17), mp.nstr(_sv(y), 17))
+    return None
+
+@pred
+def dot_self(vals, ra, rd):
+    a, d = vals[ra], vals[rd]
+    if d[3] != 0 or v(d[2]) != 0 or d[1] != _fmul(a[1], a[1]):
+        return 'a.a = %r, expected |a|^2 = %r at angle 0' % (d, fb.fl(a[1]) ** 2)
+    return None
+
+@pred
+def orth_iff(vals, rd, ro):
+    d, o = vals[rd], vals[ro]
+    want = abs(fb.fl(d[1])) < 1e-10
+    if o != ('B', want): return 'is_orthogonal = %r but dot magnitude is %r' % (o, fb.fl(d[1]))
+    return None
+
+# ------------------------------------------------------------------ C10 wedge
+@pred
+def wedge_value(vals, ra, rb, rw):
+    a, b, w = vals[ra], vals[rb], vals[rw]
+    m = _ok_geo(w)
+    if m: return m
+    ab = v(a[1]) * v(b[1])
+    s = mp.sin(direction(_A(b)) - direction(_A(a)))
+    tol = ab * (TOL + 16 * EPS) + mp.mpf(5e-324) * 4
+    if abs(v(w[1]) - ab * abs(s)) > tol: return 'wedge magnitude %s, expected %s' % (mp.nstr(v(w[1]), 17), mp.nstr(ab * abs(s), 17))
+    A, B, W = _A(a), _A(b), _A(w)
+    extra = W[2] - A[2] - B[2]
+    err0 = mp.mpf(extra - 1) * HALF + v(W[1]) - v(A[1]) - v(B[1])       # total minus (ta + tb + pi/2)
+    if abs(s) > mp.mpf('3e-10'):
+        want_half = 1 if s < 0 else 0
+        if abs(err0 - want_half * PI) > 3 * TOL + 32 * EPS:
+            return 'wedge angle is ta+tb+pi/2 %+s, expected %s half turn(s) (sin = %s)' % (mp.nstr(err0, 8), want_half, mp.nstr(s, 5))
+    else:
+        if min(abs(err0), abs(err0 - PI)) > 3 * TOL + 32 * EPS:
+            return 'wedge angle is ta+tb+pi/2 %+s' % mp.nstr(err0, 8)
+    return None
+
+@pred
+def wedge_swap(vals, ra, rb, rw1, rw2):
+    a, b, w1, w2 = vals[ra], vals[rb], vals[rw1], vals[rw2]
+    ab = v(a[1]) * v(b[1])
+    if abs(v(w1[1]) - v(w2[1])) > 2 * ab * (TOL + 16 * EPS) + mp.mpf(5e-324) * 8: return 'swapped wedge magnitudes differ'
+    s = mp.sin(direction(_A(b)) - direction(_A(a)))
+    if abs(s) > mp.mpf('3e-10') and abs(w1[3] - w2[3]) != 2:
+        return 'swapping the operands turned the wedge by %d blades, expected exactly 2' % abs(w1[3] - w2[3])
+    return None
+
+@pred
+def lagrange(vals, ra, rb, rd, rw):
+    a, b, d, w = vals[ra], vals[rb], vals[rd], vals[rw]
+    ab = v(a[1]) * v(b[1])
+    lhs = v(d[1]) ** 2 + v(w[1]) ** 2
+    if abs(lhs - ab * ab) > ab * ab * (4 * TOL + 64 * EPS) + mp.mpf('1e-600'):
+        return 'dot^2 + wedge^2 = %s, (|a||b|)^2 = %s' % (mp.nstr(lhs, 17), mp.nstr(ab * ab, 17))
+    return None
+
+# ------------------------------------------------------------------ C11 projection
+@pred
+def project_struct(vals, ra, rb, rp):
+    a, b, p = vals[ra], vals[rb], vals[rp]
+    m = _ok_geo(p)
+    if m: return m
+    if abs(fb.fl(b[1])) < 1e-10:
+        if v(p[1]) != 0: return 'projection onto a (near-)zero vector has magnitude %s' % mp.nstr(v(p[1]), 5)
+        return None
+    c = mp.cos(direction(_A(b)) - direction(_A(a)))
+    ma = v(a[1])
+    if abs(v(p[1]) - ma * abs(c)) > ma * (TOL + 16 * EPS) + mp.mpf(5e-324) * 4:
+        return 'projection magnitude %s, expected %s' % (mp.nstr(v(p[1]), 17), mp.nstr(ma * abs(c), 17))
+    same = (p[2], p[3]) == (b[2], b[3])
+    turned = (p[3] == b[3] + 2 and v(p[2]) == v(b[2]))
+    if not (same or turned): return "projection angle %r is neither b's angle %r nor b's angle plus pi" % (_A(p), _A(b))
+    if abs(c) > mp.mpf('3e-10') and ((c > 0) != same): return 'projection sign: cos = %s but angle %s' % (mp.nstr(c, 5), "b's" if same else "b's + pi")
+    return None
+
+@pred
+def proj_rej_laws(vals, ra, rb, rp, rr, rsum):
+    a, b, p, rj, s = vals[ra], vals[rb], vals[rp], vals[rr], vals[rsum]
+    if abs(fb.fl(b[1])) < 1e-10: return _ok_geo(rj)
+    m = _ok_geo(rj) or _ok_geo(s)
+    if m: return m
+    ma = v(a[1])
+    ax, ay = cart(a); sx, sy = cart(s)
+    bl = a[3] + b[3] + 8
+    if mp.sqrt((ax - sx) ** 2 + (ay - sy) ** 2) > ma * (4 * SQEPS + 4 * TOL + 4 * _blade_term(2 * bl)):
+        return 'projection + rejection does not reproduce a: (%s,%s) vs (%s,%s)' % (mp.nstr(sx, 12), mp.nstr(sy, 12), mp.nstr(ax, 12), mp.nstr(ay, 12))
+    if abs(v(p[1]) ** 2 + v(rj[1]) ** 2 - ma * ma) > ma * ma * (8 * TOL + 64 * EPS + 8 * _blade_term(bl)):
+        return '|proj|^2 + |rej|^2 = %s, |a|^2 = %s' % (mp.nstr(v(p[1]) ** 2 + v(rj[1]) ** 2, 17), mp.nstr(ma * ma, 17))
+    if v(rj[1]) > mp.mpf('1e-5') * ma:
+        c = mp.cos(direction(_A(rj)) - direction(_A(b)))
+        if abs(c) > mp.mpf('2e-9') + 4 * SQEPS * ma / v(rj[1]) * mp.mpf('1e-3') + 8 * _blade_term(bl):
+            return 'rejection not orthogonal to b: cosine %s' % mp.nstr(c, 5)
+    return None
+
+@pred
+def float_value(vals, r, want_s, tol_s):
+    """a float register equals a reference value (given as decimal strings) within tol"""
+    x = vals[r]
+    if x[0] != 'F' or not fb.is_finite_bits(x[1]): return 'not a finite float: %r' % (x,)
+    if abs(v(x[1]) - mp.mpf(want_s)) > mp.mpf(tol_s): return 'value %s, expected %s' % (mp.nstr(v(x[1]), 17), want_s)
+    return None
+
+@pred
+def angle_project_value(vals, ra, rb, rf, rmag):
+    """Angle::project / project_to_dimension: (mag *) cos(onto - self)"""
+    A, B, x = _A(vals[ra]), _A(vals[rb]), vals[rf]
+    mag = v(vals[rmag][1]) if rmag >= 0 else mp.mpf(1)
+    if not fb.is_finite_bits(x[1]): return 'projection not finite'
+    want = mag * mp.cos(direction(B) - direction(A))
+    if abs(v(x[1]) - want) > mag * (TOL + 16 * EPS) + mp.mpf(5e-324) * 4:
+        return 'projection %s, expected %s' % (mp.nstr(v(x[1]), 17), mp.nstr(want, 17))
+    return None
+
+@pred
+def project_to_angle_enc(vals, rg, ra, rres):
+    g, A, p = vals[rg], _A(vals[ra]), vals[rres]
+    m = _ok_geo(p)
+    if m: return m
+    if v(p[2]) != 0 or p[3] not in (0, 2): return 'project_to_angle not encoded at 0 or pi: %r' % (_A(p),)
+    mag = v(g[1])
+    want = mag * mp.cos(direction(A) - direction(_A(g)))
+    if abs(_sv(p) - want) > mag * (TOL + 16 * EPS) + mp.mpf(5e-324) * 4: return 'project_to_angle %s, expected %s' % (mp.nstr(_sv(p), 17), mp.nstr(want, 17))
+    return None
+
+# ------------------------------------------------------------------ C12 rotation / reflection
+@pred
+def reflect_law(vals, rp, rax, rr):
+    p, ax, r = vals[rp], vals[rax], vals[rr]
+    m = _ok_geo(r)
+    if m: return m
+    if r[1] != p[1]: return 'reflection changed the magnitude'
+    if r[3] < 2 * ax[3]: return 'reflection carries %d blades, fewer than twice the axis (%d)' % (r[3], 2 * ax[3])
+    want = 2 * direction(_A(ax)) - direction(_A(p))
+    if angdiff(direction(_A(r)), want) > 3 * TOL + 32 * EPS:
+        return 'reflected direction %s, expected 2*alpha - t = %s (mod 2pi)' % (mp.nstr(direction(_A(r)), 15), mp.nstr(mp.fmod(want + 4 * PI, 2 * PI), 15))
+    return None
+
+@pred
+def direction_close(vals, r1, r2, k):
+    a, b = _A(vals[r1]), _A(vals[r2])
+    if angdiff(direction(a), direction(b)) > k * TOL + 32 * EPS:
+        return 'directions differ: %s vs %s' % (mp.nstr(direction(a), 15), mp.nstr(direction(b), 15))
+    return None
+
+@pred
+def same_grade_rem_plus(vals, r1, r2, dblades):
+    a, b = _A(vals[r1]), _A(vals[r2])
+    if b[2] != a[2] + dblades or v(a[1]) != v(b[1]):
+        return 'expected the same remainder with %d more blades: %r vs %r' % (dblades, a, b)
+    return None
+
+@pred
+def scale_rotate_enc(vals, rg, fbits, rrot, rres, rref):
+    g, r = vals[rg], vals[rres]
+    f = fb.fl(fbits)
+    if v(r[1]) != v(fb.bits(fb.fl(g[1]) * abs(f))): return 'scale_rotate magnitude %r, expected %r' % (fb.fl(r[1]), fb.fl(g[1]) * abs(f))
+    if (r[2], r[3]) != (vals[rref][1], vals[rref][2]) if vals[rref][0] == 'A' else (r[2], r[3]) != (vals[rref][2], vals[rref][3]):
+        return 'scale_rotate angle %r differs from the reference %r' % (_A(r), _A(vals[rref]))
+    return None
+
+# ------------------------------------------------------------------ C13 distance / inversion
+@pred
+def distance_value(vals, ra, rb, rd):
+    a, b, d = vals[ra], vals[rb], vals[rd]
+    m = _ok_geo(d)
+    if m: return m
+    if d[3] != 0 or v(d[2]) != 0: return 'distance not at angle 0: %r' % (_A(d),)
+    ax, ay = cart(a); bx, by = cart(b)
+    want = mp.sqrt((ax - bx) ** 2 + (ay - by) ** 2)
+    scale = _scale(a, b)
+    tol = _cart_tol(scale, want, 4)
+    if abs(v(d[1]) - want) > tol: return 'distance %s, expected %s (tolerance %s)' % (mp.nstr(v(d[1]), 17), mp.nstr(want, 17), mp.nstr(tol, 5))
+    return None
+
+@pred
+def mags_close(vals, r1, r2, rscale, kind):
+    """two magnitudes agree within the sqrt(eps) cancellation bound of the operand scale"""
+    x, y = vals[r1], vals[r2]
+    if _isP(x) or _isP(y): return 'unexpected panic'
+    scale = sum((v(vals[r][1]) for r in rscale), mp.mpf(0))
+    bl = sum((vals[r][3] for r in rscale), 0)
+    tol = (8 * SQEPS + 4 * TOL + 4 * _blade_term(bl + 4)) * scale
+    if abs(v(x[1]) - v(y[1])) > tol: return '%s: %s vs %s' % (kind, mp.nstr(v(x[1]), 17), mp.nstr(v(y[1]), 17))
+    return None
+
+@pred
+def triangle(vals, rab, rbc, rac, rscale):
+    scale = sum((v(vals[r][1]) for r in rscale), mp.mpf(0))
+    slack = v(vals[rab][1]) + v(vals[rbc][1]) - v(vals[rac][1])
+    if slack < -(8 * SQEPS + 4 * TOL) * scale: return 'triangle inequality violated by %s' % mp.nstr(-slack, 5)
+    return None
+
+@pred
+def mag_diff_exact(vals, ra, rb, rf):
+    want = fb.bits(abs(fb.fl(vals[ra][1]) - fb.fl(vals[rb][1])))
+    if vals[rf] != ('F', want): return 'mag_diff %r, expected %r' % (vals[rf], fb.fl(want))
+    return None
+
+@pred
+def invert_laws(vals, rp, rc, radbits, roff, rinv):
+    p, c, off, q = vals[rp], vals[rc], vals[roff], vals[rinv]
+    if v(off[1]) == 0:
+        return None if _isP(q) else 'inversion of the circle centre did not panic'
+    if _isP(q): return 'invert_circle panicked although the point is not the centre'
+    m = _ok_geo(q)
+    if m: return m
+    rad = v(radbits)
+    px, py = cart(p); cx, cy = cart(c); qx, qy = cart(q)
+    d1 = mp.sqrt((px - cx) ** 2 + (py - cy) ** 2)
+    d2 = mp.sqrt((qx - cx) ** 2 + (qy - cy) ** 2)
+    if d1 == 0: return None
+    scale = v(p[1]) + v(c[1])
+    rel1 = (4 * SQEPS + 4 * TOL) * (scale / d1)                         # relative error of |p - c|
+    want2 = rad * rad / d1
+    scale2 = v(c[1]) + want2
+    abs2 = (4 * SQEPS + 4 * TOL) * scale2 + want2 * 2 * rel1             # absolute error allowed on |p' - c|
+    if rel1 > mp.mpf('0.05'): return None                                 # ill-conditioned: nothing to check
+    if abs(d2 - want2) > abs2 + 64 * EPS * want2:
+        return "|p'-c||p-c| = %s, r^2 = %s" % (mp.nstr(d1 * d2, 12), mp.nstr(rad * rad, 12))
+    if want2 > 1000 * abs2:
+        # same ray from c
+        t1 = mp.atan2(py - cy, px - cx); t2 = mp.atan2(qy - cy, qx - cx)
+        if angdiff(t1, t2) > 4 * rel1 + 4 * abs2 / want2 + 8 * TOL: return 'inverted point not on the ray from the centre: %s vs %s' % (mp.nstr(t1, 12), mp.nstr(t2, 12))
+    return None
+
+# ------------------------------------------------------------------ C15 trig gateways
+@pred
+def trig_enc(vals, ra, rc, rs):
+    A, c, s = _A(vals[ra]), vals[rc], vals[rs]
+    m = _ok_geo(c) or _ok_geo(s)
+    if m: return m
+    t = direction(A)
+    if v(c[2]) != 0 or c[3] not in (0, 2): return 'cos not at angle 0 or pi: %r' % (_A(c),)
+    if v(s[2]) != 0 or s[3] not in (1, 3): return 'sin not at angle pi/2 or 3pi/2: %r' % (_A(s),)
+    if abs(_sv(c) - mp.cos(t)) > 16 * EPS: return 'cos value %s, expected %s' % (mp.nstr(_sv(c), 17), mp.nstr(mp.cos(t), 17))
+    if abs(_sv(s) - mp.sin(t)) > 16 * EPS: return 'sin value %s, expected %s' % (mp.nstr(_sv(s), 17), mp.nstr(mp.sin(t), 17))
+    if abs(v(c[1]) ** 2 + v(s[1]) ** 2 - 1) > 16 * EPS: return 'cos^2 + sin^2 = %s' % mp.nstr(v(c[1]) ** 2 + v(s[1]) ** 2, 17)
+    if (c[3] == 2 and v(c[1]) == 0) or (s[3] == 3 and v(s[1]) == 0): return 'zero value carried at the negative half turn'
+    return None
+
+@pred
+def tan_enc(vals, ra, rt):
+    A, t = _A(vals[ra]), vals[rt]
+    th = direction(A)
+    c = mp.cos(th)
+    if _isP(t):
+        return None if abs(c) < 64 * EPS else 'tan panicked although cos = %s' % mp.nstr(c, 5)
+    if t[3] % 2 != 1: return 'tan has even grade: blade %d' % t[3]
+    if abs(c) > mp.mpf('1e-6'):
+        want = abs(mp.tan(th))
+        if abs(v(t[1]) - want) > 64 * EPS * (1 + want) * (1 + want): return 'tan magnitude %s, expected %s' % (mp.nstr(v(t[1]), 17), mp.nstr(want, 17))
+    return None
+
+@pred
+def adj_opp_enc(vals, rg, radj, ropp):
+    g, a, o = vals[rg], vals[radj], vals[ropp]
+    m = _ok_geo(a) or _ok_geo(o)
+    if m: return m
+    x, y = cart(g); mg = v(g[1])
+    if a[3] % 2 != 0 or o[3] % 2 != 1 or v(a[2]) != 0 or v(o[2]) != 0: return 'adj/opp not on the quarter-turn lattice: %r %r' % (_A(a), _A(o))
+    if abs(_sv(a) - x) > 32 * EPS * mg + mp.mpf(5e-324) * 4: return 'adj %s, expected %s' % (mp.nstr(_sv(a), 17), mp.nstr(x, 17))
+    if abs(_sv(o) - y) > 32 * EPS * mg + mp.mpf(5e-324) * 4: return 'opp %s, expected %s' % (mp.nstr(_sv(o), 17), mp.nstr(y, 17))
+    if abs(v(a[1]) ** 2 + v(o[1]) ** 2 - mg * mg) > 64 * EPS * mg * mg + mp.mpf('1e-600'): return 'adj^2 + opp^2 != |g|^2'
+    return None
+
+# ------------------------------------------------------------------ C08 shifts
+@pred
+def measure_shift_equal(vals, r1, r2, n):
+    """a measurement repeated with operands shifted by whole turns: floats within n ulps; geonums with
+    magnitude within n ulps, identical remainder and grade (blade difference a multiple of 4)"""
+    a, b = vals[r1], vals[r2]
+    if a[0] != b[0]: return 'kinds differ: %r vs %r' % (a, b)
+    if a[0] in ('B', 'U', 'O', 'P'):
+        return None if a == b else 'measurement changed under a whole-turn shift: %r vs %r' % (a, b)
+    if a[0] == 'F':
+        if not (fb.is_finite_bits(a[1]) and fb.is_finite_bits(b[1])): return 'non-finite measurement'
+        return None if _ulps(a[1], b[1]) <= n else 'measurement changed under a whole-turn shift: %r vs %r' % (fb.fl(a[1]), fb.fl(b[1]))
+    if a[0] == 'G':
+        if _ulps(a[1], b[1]) > n: return 'magnitude changed under a whole-turn shift: %r vs %r' % (fb.fl(a[1]), fb.fl(b[1]))
+        if (b[3] - a[3]) % 4 != 0 or _ulps(a[2], b[2]) > n: return 'grade or remainder changed under a whole-turn shift: %r vs %r' % (_A(a), _A(b))
+        return None
+    if a[0] == 'C':
+        return None if a == b else 'selection changed under a whole-turn shift'
+    return None
+
+@pred
+def blade_shift_is(vals, r1, r2, d):
+    a, b = _A(vals[r1]), _A(vals[r2])
+    if b[2] - a[2] != d: return 'result blade shifted by %d, predicted %d' % (b[2] - a[2], d)
     return None
